@@ -2,6 +2,7 @@
 pyhf patchset provides a user-friendly interface for interacting with patchsets.
 """
 
+import copy
 import logging
 import jsonpatch
 from pyhf import exceptions
@@ -58,6 +59,19 @@ class Patch(jsonpatch.JsonPatch):
     def values(self):
         """The values of the associated labels for the patch"""
         return tuple(self.metadata['values'])
+
+    def apply(self, obj, in_place=False):
+        """
+        Apply the patch to the given object, see :meth:`jsonpatch.JsonPatch.apply`.
+
+        The operations are applied from a copy: :mod:`jsonpatch` places the
+        ``value`` objects of the operations themselves into the patched
+        document, so a later operation acting inside such a value (or the
+        caller editing the result) would otherwise alter the stored patch.
+        """
+        return jsonpatch.JsonPatch(copy.deepcopy(self.patch)).apply(
+            obj, in_place=in_place
+        )
 
     def __repr__(self):
         """Representation of the object"""
